@@ -121,6 +121,51 @@ def c04_sparse(kind: int, n: int, k: int, t: T12, m: int, starts: int, finals: i
     return _run("c04_sparse", raw, kd, nn, kk, edges, st, fi, labels, order, bound, ub)
 
 
+def _edit_oracle(args, obs):
+    kind, n, k, edges, starts, finals, removed, bound = args
+    after = [e for e in edges if e != removed]
+    fails_nt = _oracle((kind, n, k, after, starts, finals, None, bound), obs)
+    nontrivial, fails, note = fails_nt
+    for f in fails:
+        f.setdefault("tags", []).append("edited_by_remove_transition")
+    return bool(after) and nontrivial, fails, dict(note, removed=removed, before=edges)
+
+
+def c04_edit(kind: int, bits: B8, starts: int, finals: int, which: int, bound: int) -> bool:
+    """
+    pre: pinned(kind=kind, starts=starts, finals=finals, b0=bits[0], b1=bits[1], b2=bits[2])
+    pre: ((0 <= kind) & (kind < 2)) & ((0 <= starts) & (starts < 4)) & ((0 <= finals) & (finals < 4)) & ((0 <= which) & (which < 8)) & ((-1 <= bound) & (bound <= 3))
+    post: _
+    """
+    raw = (kind, bits, starts, finals, which, bound)
+    edges = enc.decode_enfa_dense(bits, 2, 1)
+    st = enc.mask_members(starts, 2)
+    fi = enc.mask_members(finals, 2)
+    kd = enc.pick(kind, 2)
+    wi = enc.pick(which, 8)
+    if wi >= len(edges) or not kind_ok(kd, edges, st):
+        return chx.assumed_away("c04_edit")
+    removed = edges[wi]
+    chx.enter("c04_edit", raw, realize=False)
+    fa = enc.build_enfa(CLASSES[kd], 2, edges, st, fi)
+    # the predicates answer first, the automaton is then edited through the public API and must answer for
+    # what it now is
+    for op in ("is_empty", "is_deterministic", "is_acyclic"):
+        chx.guarded(getattr(fa, op))
+    q, sy, t = removed
+    fa.remove_transition(q, "epsilon" if sy == 0 else enc.SYMS[sy - 1], t)
+    obs = {"is_empty": chx.guarded(fa.is_empty), "is_deterministic": chx.guarded(fa.is_deterministic),
+           "is_acyclic": chx.guarded(fa.is_acyclic)}
+
+    def words():
+        out = []
+        for w in chx.take(fa.get_accepted_words(bound), 40):
+            out.append([s.value for s in w])
+        return out
+    obs["words"] = chx.guarded(words)
+    return chx.judge("C04", "c04_edit", raw, (kd, 2, 1, edges, st, fi, removed, bound), obs, _edit_oracle)
+
+
 def _sh_dense(tier):
     if tier == "quick":
         return product_pins(kind=[0], starts=[1, 2, 3], finals=[1, 2], b0=[False], b1=[False, True],
@@ -140,6 +185,14 @@ def _sh_sparse(tier):
                      t0=[0, 1, 2])
 
 
+def _sh_edit(tier):
+    if tier == "quick":
+        return product_pins(kind=[0], starts=[1, 3], finals=[2], b0=[False], b1=[False, True], b2=[False, True]) + \
+            product_pins(kind=[1], starts=[1, 3], finals=[2, 3], b0=[False], b1=[False], b2=[False])
+    return product_pins(kind=[0], starts=[1, 2, 3], finals=[1, 2, 3], b0=[False], b1=[False, True], b2=[False, True]) + \
+        product_pins(kind=[1], starts=[1, 2, 3], finals=[1, 2, 3], b0=[False], b1=[False], b2=[False])
+
+
 FUNCS = ["EpsilonNFA.is_empty", "EpsilonNFA.is_deterministic", "NondeterministicFiniteAutomaton.is_deterministic",
          "DeterministicFiniteAutomaton.is_deterministic", "FiniteAutomaton.is_acyclic",
          "FiniteAutomaton.get_accepted_words", "FiniteAutomaton._get_states_leading_to_final",
@@ -157,4 +210,10 @@ CONDS = [
                    "(visiting orders) x symbolic bound -1..3",
           "thorough": "3 states over {a}: 2 edges x 3 start masks x 3 final masks x 2 permutations, 3 edges for start {0}, finals {2}/{1,2}; bounds -1..3 and None"},
          FUNCS, RULE),
+    Cond("C04", c04_edit, _sh_edit,
+         {"quick": "eps-NFA / NFA with 2 states over {a}: the predicates are queried, one symbolic transition is removed "
+                   "with remove_transition, and the predicates and the words up to a symbolic bound -1..3 are judged on "
+                   "the edited automaton (starts {0}/{0,1}, final {1}, or {1}/{0,1} for NFA)",
+          "thorough": "same, all non-empty start and final masks"},
+         FUNCS + ["EpsilonNFA.remove_transition", "NondeterministicTransitionFunction.remove_transition"], RULE),
 ]
